@@ -74,7 +74,9 @@ new.append(entry("C07",
 SAFETY = r"#(index|slice|nil|nilmap|assert|div|panic|libpre|makeslice|requires)[@:]"
 INLINED_ONLY = "reflective codec function: analysed on its real body inlined into every API operation, lemma function and listener handler for the concrete message type (reflect on a statically unknown type is outside the engine's model)"
 new.append(entry("C04",
-    functions=OPS + ["uhppote.sendto$1", "uhppote.(*uhppote).udpBroadcastTo$1"],
+    functions=OPS + ["uhppote.sendto$1", "uhppote.(*uhppote).udpBroadcastTo$1"] + ["messages.lemmaDecode" + t for t in open(os.path.join(SPEC, "message_types.txt")).read().split()],
+    replay=[{"match": "types.(ControlState)", "driver": "types_render", "pkg": "types", "case": "all"},
+            {"match": "messages.lemmaDecode", "driver": "messages_decode", "pkg": "messages", "case": "all"}],
     sweep=["types", "uhppote", "messages", "encoding/bcd", "encoding/UTO311-L0x"],
     sweep_exclude={
         "encoding/UTO311-L0x.Marshal": INLINED_ONLY, "encoding/UTO311-L0x.marshal": INLINED_ONLY,
